@@ -1973,6 +1973,18 @@ Example ex_lost_bytes :
   end.
 Proof. vm_compute. repeat split; reflexivity. Qed.
 
+(* the second disjunct of the UnexpectedEof case is needed: a GetValues record whose name-value pair (92 bytes) does
+   not fit into the 64-byte parser buffer fills the buffer with unparsed bytes; the next read is made into an empty
+   buffer, answers Ok(0), and is taken for end of file although 28 client bytes are still to come *)
+Definition ex_big_pair : bytes := [1;9;0;0;0;92;0;0] ++ [90;0] ++ repeatN 65 90.
+Example ex_full_buffer_eof :
+  match poll_input 10 200 (Some 10) (mkR ex_resp true false) (ex_w ex_big_pair) with
+  | (PReady (inr k), r', w') => k = EK_UnexpectedEof /\ sinput_space (rsp r') = 0 /\ len (remaining w') = 28 /\
+                                payload_rem (rsp r') = 92
+  | _ => False
+  end.
+Proof. vm_compute. repeat split; reflexivity. Qed.
+
 (* COUNTEREXAMPLE to "do_writeable = Ok(None) implies writeable": a Filter handler selects Data (the final
    stream), fill_buf() meets Data "xy" and an AbortRequest in one parse call and fails with Aborted, leaving "xy"
    in the stream buffer and the gate closed; then writeable() returns Ok(()) and is_writeable() is still false
